@@ -258,8 +258,99 @@ fn owner_reraise(e: &'static Engine, workers: usize, select: bool) {
     e.note("reraised");
 }
 
+#[derive(Debug)]
+struct Own(u32);
+static DETACHED_LEFT: std::sync::atomic::AtomicU32 = std::sync::atomic::AtomicU32::new(0);
+static ALL_ENDED: AtomicBool = AtomicBool::new(false);
+static LATER_PARKED: AtomicBool = AtomicBool::new(false);
+
+struct CountEnd;
+impl Drop for CountEnd {
+    fn drop(&mut self) {
+        if DETACHED_LEFT.fetch_sub(1, Ordering::SeqCst) == 1 {
+            ALL_ENDED.store(true, Ordering::SeqCst);
+        }
+    }
+}
+
+/// `n` fire-and-forget coroutines (JoinHandle dropped at once) panic; later spawns over the reused pool (capacity 1) end
+/// normally, by cancellation, by their own panic, or run a select! in which nobody panics: each gets exactly its own result
+fn detached_panic(e: &'static Engine, workers: usize, n: usize) {
+    rt_init_opts(workers, 1, 0x4000, 3_600_000_000_000);
+    DETACHED_LEFT.store(n as u32, Ordering::SeqCst);
+    e.begin();
+    for i in 0..n {
+        drop(go!(move || {
+            let _c = CountEnd;
+            if i % 2 == 1 {
+                coroutine::yield_now();
+            }
+            std::panic::panic_any(format!("boom in detached coroutine {}", i));
+        }));
+    }
+    let b = go!(|| {
+        coroutine::yield_now();
+        5u32
+    });
+    if b.join().ok() != Some(5) {
+        e.fail("bystander", "a bystander coroutine did not run normally next to the detached panics");
+    }
+    e.wait_flag(&ALL_ENDED);
+    e.quiesce();
+    for round in 0..workers + 1 {
+        // ends by cancellation: Cancel and nothing else
+        LATER_PARKED.store(false, Ordering::SeqCst);
+        let h = go!(|| {
+            LATER_PARKED.store(true, Ordering::SeqCst);
+            loop {
+                coroutine::park();
+            }
+        });
+        e.wait_flag(&LATER_PARKED);
+        unsafe { h.coroutine().cancel() };
+        match h.join() {
+            Ok(()) => e.fail("later_spawn", "a cancelled later spawn returned Ok"),
+            Err(p) => {
+                if !matches!(p.downcast_ref::<generator::Error>(), Some(generator::Error::Cancel)) {
+                    e.fail("later_spawn", &format!("round {}: the join of a cancelled later spawn delivered a foreign payload instead of Cancel", round));
+                }
+            }
+        }
+        // its own panic
+        let h = go!(move || {
+            coroutine::yield_now();
+            std::panic::panic_any(Own(31 + round as u32));
+        });
+        match h.join() {
+            Err(p) if matches!(p.downcast_ref::<Own>(), Some(Own(v)) if *v == 31 + round as u32) => {}
+            _ => e.fail("later_spawn", "a later spawn that panics did not deliver its own payload"),
+        }
+        // a select! in which nobody panics: the losing arm is cancelled by the cqueue
+        let h = go!(|| {
+            let (_tx, rx) = may::sync::mpsc::channel::<u32>();
+            let id = select!(
+                _ = coroutine::yield_now() => {},
+                _ = rx.recv() => {}
+            );
+            id
+        });
+        match h.join() {
+            Ok(0) => {}
+            Ok(v) => e.fail("later_spawn", &format!("select! chose arm {} (its channel never had a value)", v)),
+            Err(_) => e.fail("later_spawn", "a select! in which nobody panicked re-raised a panic in its owner"),
+        }
+    }
+    e.note("ok");
+}
+
 pub fn build(quick: bool) -> Vec<Scenario> {
     let mut v = vec![];
+    v.push(Scenario::new("C13", "detached_panic", "detached_panic.n1.w1", Arc::new(move |e| detached_panic(e, 1, 1))));
+    v.push(Scenario::new("C13", "detached_panic", "detached_panic.n2.w2", Arc::new(move |e| detached_panic(e, 2, 2))));
+    if !quick {
+        v.push(Scenario::new("C13", "detached_panic", "detached_panic.n3.w1", Arc::new(move |e| detached_panic(e, 1, 3))));
+        v.push(Scenario::new("C13", "detached_panic", "detached_panic.n3.w2", Arc::new(move |e| detached_panic(e, 2, 3))));
+    }
     for w in [1usize, 2] {
         for (yb, hold, cancel) in [
             (false, Hold::Nothing, false),
